@@ -53,8 +53,30 @@ print("no violation for the counter-model", m); sys.exit(0)
 '''
 
 
+C13_TEMPLATE = '''#!/venv/bin/python
+"""Replay of the verifier's counter-model of a C13 obligation on the real code: the configuration and the query
+of the model are rebuilt (rationals rounded to doubles) and the accessors are checked against fill.
+property: {prop}  obligation: {name}"""
+import os, sys
+os.environ.setdefault("HGV_REPO", {repo!r})
+sys.path.insert(0, {verif!r})
+from hgv_native import c13
+MODELS = {models!r}
+for m in MODELS:
+    msg = c13.replay_model(m)
+    if msg:
+        print("VIOLATED:", msg, " (counter-model:", m, ")"); sys.exit(1)
+print("the counter-models do not reproduce in double precision:", MODELS); sys.exit(0)
+'''
+
+
 def build_script(prop, name, recs):
     _, function, clause = name.split("/", 2)
+    if prop == "C13" and recs and not recs[0].get("bounded"):
+        models = [r["model"] for r in recs if r.get("model") and "class" in r["model"]]
+        if not models:
+            return None
+        return C13_TEMPLATE.format(prop=prop, name=name, repo=REPO, verif=VERIF, models=models)
     if recs and recs[0].get("fp64") and recs[0].get("model"):
         return FP64_TEMPLATE.format(prop=prop, name=name, repo=REPO, model=recs[0]["model"])
     if recs and recs[0].get("bounded"):
